@@ -110,6 +110,8 @@ def cond_text(c: dict, top: bool = True) -> str:
         return f"len(x) {c['op']} {c['n']}"
     if k == "cmp":
         return f"x {c['op']} {lit[0]}"
+    if k == "lenr":
+        return f"{c['n']} {c['op']} len(x)"
     if k == "not":
         return f"not ({cond_text(c['subs'][0], False)})"
     if k in ("and", "or"):
